@@ -41,6 +41,7 @@ SStep(t) ==
   \/ LockGet(t) /\ Rec("LockGet", t, Z)
   \/ TransformBegin(t) /\ Rec("TransformBegin", t, Z)
   \/ \E f \in fns, o \in Opts : Nested(t, f, o) /\ Rec("Nested", t, <<f.code, f.env, o>>)
+  \/ ParseFail(t) /\ Rec("ParseFail", t, Z)
   \/ TransformFail(t) /\ Rec("TransformFail", t, Z)
   \/ TransformOk(t) /\ Rec("TransformOk", t, Z)
   \/ Store(t) /\ Rec("Store", t, Z)
